@@ -54,7 +54,7 @@ type Job struct {
 	// Canon: also return the canonical rendering of every object (trace mode; for replays)
 	Canon bool `json:"canon,omitempty"`
 	// Mode "session": for every cut c in Units one scanner on Data[:c] driven by the call script
-	// Calls (0 Scan, 1 Err, 2 Header); the responses are returned in Resp / RespTok
+	// Calls (0 Scan, 1 Err, 2 Header, 3 Close); the responses are returned in Resp / RespTok
 	Calls []int `json:"calls,omitempty"`
 	// Alloc (cut mode): also report how many MiB the Go heap handed out during the scan
 	Alloc bool `json:"alloc,omitempty"`
@@ -91,7 +91,7 @@ type Obs struct {
 	PrevResumedErr int      `json:"prev_resumed_err,omitempty"`
 	StopShort      bool     `json:"stop_short,omitempty"` // fewer than k objects could be scanned
 	// session mode, one entry per call: 0 Scan returned false, 1 Scan returned true (RespTok = the
-	// object), 2 Err() == nil, 3 Err() != nil, 4 Header() error == nil, 5 Header() error != nil
+	// object), 2 Err() == nil, 3 Err() != nil, 4 Header() error == nil, 5 Header() error != nil, 6 Close() returned
 	Resp    []int64  `json:"resp,omitempty"`
 	RespTok []uint64 `json:"resp_tok,omitempty"`
 	// cut mode: FullyScannedBytes / PreviousFullyScannedBytes read after Scan returned false
@@ -274,6 +274,9 @@ func runUnit(j *Job, u int) Obs {
 					o.Resp = append(o.Resp, 3)
 				}
 				o.RespTok = append(o.RespTok, 0)
+			case 3:
+				s.Close() // must return (the unit runs under the watchdog)
+				o.Resp, o.RespTok = append(o.Resp, 6), append(o.RespTok, 0)
 			default:
 				if _, err := s.Header(); err == nil {
 					o.Resp = append(o.Resp, 4)
